@@ -52,6 +52,8 @@ type sim struct {
 	cutHello  bool
 	cutReq    bool // the next Hello never reaches R
 	pubBase   int // publishes recorded by earlier incarnations of R
+	armBefore func() // hook to run when the next clean start enters clear()
+	armAfter  func() // hook to run right after that clear()
 }
 
 func bodyOf(e *fed.Event) string {
@@ -339,9 +341,35 @@ func (s *sim) fin() string {
 	return s.report()
 }
 
+// arm (re-)installs the pending clear hooks on the current peer queue; each fires at most once
+func (s *sim) arm() bool {
+	s.mu.Lock()
+	b, a := s.armBefore, s.armAfter
+	s.mu.Unlock()
+	var before, after func()
+	if b != nil {
+		before = func() {
+			s.mu.Lock()
+			s.armBefore = nil
+			s.mu.Unlock()
+			b()
+		}
+	}
+	if a != nil {
+		after = func() {
+			s.mu.Lock()
+			s.armAfter = nil
+			s.mu.Unlock()
+			a()
+		}
+	}
+	return s.S.OnPeerQueueClear("R", before, after)
+}
+
 func (s *sim) setupPeer() {
 	s.S.NodeJoin("R")
 	s.S.RecordPeerQueue("R")
+	s.arm()
 	s.S.FedSubscribe("R", "", "t/#") // R has subscribers for t/#: non-retained publishes on t/... are forwarded
 }
 
@@ -353,12 +381,16 @@ func (s *sim) Step(line string) string {
 	if f[0] == "new" && len(f) == 1 {
 		s.stopLoop()
 		s.mu.Lock()
+		s.armBefore, s.armAfter = nil, nil
 		s.S = fed.VerifNewFed("S", nil)
 		s.R, s.pubBase = nil, 0
+		s.mu.Unlock()
 		s.setupPeer()
+		s.mu.Lock()
 		s.newR()
 		s.lk, s.connected = nil, false
 		s.cutSend, s.cutAck, s.cutOpen, s.cutHello, s.cutReq = -1, -1, false, false, false
+		s.armBefore, s.armAfter = nil, nil
 		s.mu.Unlock()
 		return "ok"
 	}
@@ -405,6 +437,28 @@ func (s *sim) Step(line string) string {
 		s.mu.Lock()
 		s.cutHello = true
 		s.mu.Unlock()
+		return "armed"
+	case (f[0] == "at-clear" || f[0] == "after-clear") && len(f) == 4 && (f[1] == "lsub" || f[1] == "lunsub"):
+		// a subscribe/unsubscribe hook of another client that runs exactly when the next clean start clears the queue
+		// (at-clear: on entry of clear(); after-clear: between clear() and the snapshot of the local topics)
+		S, kind, c, t := s.S, f[1], f[2], f[3]
+		hook := func() {
+			if kind == "lsub" {
+				S.HookSubscribed(c, "", t)
+			} else {
+				S.HookUnsubscribed(c, t)
+			}
+		}
+		s.mu.Lock()
+		if f[0] == "at-clear" {
+			s.armBefore = hook
+		} else {
+			s.armAfter = hook
+		}
+		s.mu.Unlock()
+		if !s.arm() {
+			return "bad-op"
+		}
 		return "armed"
 	case f[0] == "cut-hello-req" && len(f) == 1:
 		s.mu.Lock()
